@@ -116,6 +116,45 @@ fn crashimg(args: &[String]) {
     writeln!(out, "{}", json!({"shard_done": shard})).unwrap();
 }
 
+/// record-hist --in <ndjson> --out <raw trace ndjson> [--shard i --of n] [--variants ..] [cfg]:
+/// replays behaviours with the tracer installed; runs are separated by Reset events
+fn record_hist(args: &[String]) {
+    let input = arg(args, "--in").expect("--in");
+    let output = arg(args, "--out").expect("--out");
+    let shard: usize = arg(args, "--shard").map(|s| s.parse().unwrap()).unwrap_or(0);
+    let of: usize = arg(args, "--of").map(|s| s.parse().unwrap()).unwrap_or(1);
+    let variants: Vec<usize> = arg(args, "--variants")
+        .map(|s| s.split(',').map(|x| x.parse().unwrap()).collect())
+        .unwrap_or_else(|| vec![0]);
+    let cfg = cfg_from_args(args);
+    let f = std::io::BufReader::new(std::fs::File::open(&input).expect("open input"));
+    let mut out = std::fs::File::create(&output).expect("open output");
+    let mut res = std::fs::File::create(format!("{}.results", output)).expect("open results");
+    locustdb::verif::install_tracer();
+    for (i, line) in f.lines().enumerate() {
+        let line = line.unwrap();
+        if i % of != shard {
+            continue;
+        }
+        let b: hist::Behaviour = serde_json::from_str(&line).expect("behaviour json");
+        for &v in &variants {
+            locustdb::verif::take_trace();
+            let mut r = hist::replay_one(&b, v + i, &cfg, true);
+            // the instance has been dropped; wait until none of its threads can emit any more
+            if args.iter().any(|a| a == "--wait-stop") {
+                locustdb::verif::wait_all_stopped(std::time::Duration::from_secs(5));
+            }
+            let trace = locustdb::verif::take_trace();
+            writeln!(out, "{}", json!({"ev": "Reset", "idx": i})).unwrap();
+            for l in trace {
+                writeln!(out, "{}", l).unwrap();
+            }
+            r["idx"] = json!(i);
+            writeln!(res, "{}", r).unwrap();
+        }
+    }
+}
+
 fn main() {
     lvh::util::quiet_panics();
     let args: Vec<String> = std::env::args().collect();
@@ -123,6 +162,7 @@ fn main() {
         Some("replay-hist") => replay_hist(&args[2..]),
         Some("replay-one") => replay_one(&args[2..]),
         Some("crashimg") => crashimg(&args[2..]),
+        Some("record-hist") => record_hist(&args[2..]),
         _ => {
             eprintln!("usage: lvh <replay-hist> ...");
             std::process::exit(2);
